@@ -7,7 +7,8 @@ from . import s2r
 
 ID = "C15"
 RULE = (
-    "the C04 profile lattice restricted to (profile, reported winner) pairs for which the reference says an audit is "
+    "the C04 profile families (multisets of <= B ballots with every reported winner and every hint; weighted profiles of <= K "
+    "distinct ballot types with the real winner and hints none / real elimination order / its reverse) restricted to (profile, reported winner) pairs for which the reference says an audit is "
     "possible, x both shipped difficulty functions x search hint in {none} + all n! elimination orders, agap = 0. "
     "theta* = max over alternative orders of the least difficulty among true assertions contradicting that order (equal "
     "to the min over sufficient sets of the largest difficulty, since a set is sufficient iff it hits every order); the "
@@ -20,7 +21,8 @@ PLAN = {"quick": [(2, 4), (3, 5), (4, 2)], "thorough": [(2, 6), (3, 6), (4, 3)]}
 
 
 def bounds(tier):
-    return {"(candidates, max ballots)": PLAN[tier], "hints": "none + all n! elimination orders", "agap": 0}
+    return {"weighted families (name: candidates, #types, max distinct types, weights)": {k: [v[0], len(v[1]), v[2], list(v[3])] for k, v in s2r.families(tier).items()},
+            "(candidates, max ballots)": PLAN[tier], "hints": "none + all n! elimination orders", "agap": 0}
 
 
 def judge(n, prof, winner, kind, hint, norm, ana=None):
@@ -57,12 +59,29 @@ def hints(n):
 
 
 def run_shard(sh, rec):
-    n, B, first = sh
-    maxB = max(b for m, b in PLAN_ACTIVE if m == n)
-    for prof in s2r.profiles(n, B, first):
+    if sh[0] == "wt":
+        _, fam, first = sh
+        n, types, K, W = s2r.families(TIER_ACTIVE)[fam]
+        gen = s2r.weighted_profiles(types, K, W, first)
+        B, maxB, weighted = None, None, True
+        alpha = list(R.rankings(n)) + [None]
+    else:
+        n, B, first = sh
+        maxB = max(b for m, b in PLAN_ACTIVE if m == n)
+        gen = s2r.profiles(n, B, first)
+        weighted = False
+    for prof in gen:
         rec.state()
         rec.trans()
-        for winner in range(n):
+        if weighted:  # the real winner; hints: none, the real elimination order, and its reverse
+            order = R.irv_order(n, [alpha[a] for a in prof])
+            winners = [order[-1]]
+            hint_list = [None, list(order), list(order[::-1])]
+            rec.vac("weighted_profiles")
+        else:
+            winners = range(n)
+            hint_list = hints(n)
+        for winner in winners:
             for kind in ("bp", "cp"):
                 ana = R.analyse(n, prof, winner, kind)
                 if not ana["possible"]:
@@ -74,7 +93,7 @@ def run_shard(sh, rec):
                 only_nen = any(
                     not any(a[0] == "NEB" and ana["true"][a][2] <= theta and R.contradicts(a, ana["orders"][k]) for a in ana["true"])
                     for k in crit)
-                for hint in hints(n):
+                for hint in hint_list:
                     norm, _, _ = s2r.call_raire(n, prof, winner, kind, hint=hint)
                     rec.evals()
                     rec.vac("auditable_runs")
@@ -91,7 +110,7 @@ def run_shard(sh, rec):
                         rec.outcome((n, winner, kind, hint, str(theta), sorted(map(repr, norm)) if isinstance(norm, list) else norm))
                     for key, what in v:
                         rec.violate(key, what, {"n": n, "profile": list(prof), "winner": winner, "kind": kind, "hint": hint})
-                    if B == maxB:
+                    if weighted or B == maxB:
                         rec.trace()
                     if rec.want_sample((n, prof, winner, kind, hint)):
                         rec.sample({"candidates": n, "ballots": s2r.show_profile(n, prof), "reported_winner": s2r.NAMES[winner],
@@ -101,12 +120,14 @@ def run_shard(sh, rec):
 
 
 PLAN_ACTIVE = PLAN["quick"]
+TIER_ACTIVE = "quick"
 
 
 def explore(tier, seed):
-    global PLAN_ACTIVE
+    global PLAN_ACTIVE, TIER_ACTIVE
     PLAN_ACTIVE = PLAN[tier]
-    return core.pmap(run_shard, s2r.shards(PLAN[tier]), seed, progress="C15")
+    TIER_ACTIVE = tier
+    return core.pmap(run_shard, s2r.weighted_shards(tier) + s2r.shards(PLAN[tier]), seed, progress="C15")
 
 
 def run_case(case):
